@@ -90,8 +90,13 @@ fn text_of_first_token(node: &SyntaxNode) -> TokenText<'_> {
 // }
 
 impl ast::AssignmentStmt {
+    // The target of the assignment if it is a plain identifier. The target is the first
+    // expression child; an identifier on the right-hand side is not the target.
     pub fn identifier(&self) -> Option<ast::Identifier> {
-        support::child(&self.syntax)
+        match support::children::<ast::Expr>(self.syntax()).next()? {
+            ast::Expr::Identifier(identifier) => Some(identifier),
+            _ => None,
+        }
     }
 }
 
